@@ -12,6 +12,9 @@ Extracted, by position inside the named Rust functions (comments stripped):
   uncountedPaths    functions that push a frame and never count it (the callee runs in a nested instance that starts
                     with pop_count = 1): is there a fallible step between the push and the nested run, and is the frame
                     taken back when that step fails?   (name, fallibleAfterPush, frameTakenBackOnFailure)
+  buildRestoresMacros  compiler/compiler.rs `compile_raw_program` gives the macro environment back when the build fails
+                    (its `is_err()` branch assigns `self.macro_env` or calls `rollback_macro_env()`), AND
+                    steel_vm/engine.rs `raw_program_to_executable` does so when symbol resolution fails
 The model (Model.lean) follows these facts: `unwind` branches on Gen.unwindTestFirst, the `callbackArity` instruction
 exists because some uncounted path is fallible after its push without taking the frame back.  Props.lean holds the
 obligations (`gen_unwind_order`, `gen_counted_paths`, `gen_uncounted_paths_as_modelled`) that stop checking when the source moves.
@@ -132,6 +135,34 @@ def main():
     if not counted or not uncounted:
         die("no counted / uncounted frame pushes found (counted=%d, uncounted=%d)" % (len(counted), len(uncounted)))
 
+    # --- the build: is the macro environment given back by a failed build?
+    def read(rel):
+        try:
+            return strip_comments(open(os.path.join(REPO, "crates/steel-core/src", rel), encoding="utf-8").read())
+        except OSError as e:
+            die("cannot read %s: %s" % (rel, e))
+    comp = fn_bodies(read("compiler/compiler.rs"))
+    eng = fn_bodies(read("steel_vm/engine.rs"))
+    if "compile_raw_program" not in comp or "raw_program_to_executable" not in eng:
+        die("compile_raw_program / raw_program_to_executable not found")
+
+    def err_branch(body):
+        m = re.search(r"if\s+\w+\.is_err\(\)\s*\{", body)
+        if not m:
+            return None
+        depth, k = 1, m.end()
+        while k < len(body) and depth:
+            depth += {"{": 1, "}": -1}.get(body[k], 0)
+            k += 1
+        return body[m.end():k - 1]
+    eb1, eb2 = err_branch(comp["compile_raw_program"][0]), err_branch(eng["raw_program_to_executable"][0])
+    if eb1 is None or eb2 is None:
+        die("the `if res.is_err()` roll-back branch of compile_raw_program / raw_program_to_executable is gone")
+    if "compiled_modules" not in eb1 or "rollback_metadata" not in eb1 or "roll_back" not in eb2 or "rollback_metadata" not in eb2:
+        die("the roll-back branches no longer restore the module table / the symbol map")
+    restores = re.compile(r"rollback_macro_env\s*\(|\.macro_env\s*=")
+    build_restores_macros = bool(restores.search(eb1)) and bool(restores.search(eb2))
+
     def b(x):
         return "true" if x else "false"
     lean = ["/- GENERATED by translate/c07_unwind.py from %s — do not edit -/" % os.path.relpath(VM, REPO),
@@ -147,6 +178,8 @@ def main():
             "/-- functions that push a frame and leave the counting to a nested instance:",
             "(name, a fallible step follows the push, the frame is taken back when that step fails) -/",
             "def uncountedPaths : List (String × Bool × Bool) := [" + ", ".join('("%s", %s, %s)' % (n, b(f), b(k)) for n, f, k in uncounted) + "]", "",
+            "/-- a failed build gives the macro environment back (compile_raw_program and raw_program_to_executable) -/",
+            "def buildRestoresMacros : Bool := %s" % b(build_restores_macros), "",
             "end SteelVerif.C07.Gen", ""]
     text = "\n".join(lean)
     old = None
@@ -158,7 +191,7 @@ def main():
         with open(OUT, "w", encoding="utf-8") as f:
             f.write(text)
     print(json.dumps({"unwindTestFirst": unwind_test_first, "nestedTestFirst": nested_test_first, "unwindClears": unwind_clears,
-                      "countedPaths": counted, "uncountedPaths": uncounted}))
+                      "countedPaths": counted, "uncountedPaths": uncounted, "buildRestoresMacros": build_restores_macros}))
 
 
 main()
